@@ -1,10 +1,9 @@
------------------------------ MODULE Trace_Time -----------------------------
-EXTENDS Time, Json, IOUtils
+----------------------------- MODULE Trace_Predecode -----------------------------
+EXTENDS Predecode, Json, IOUtils
 VARIABLE l
 Trace == ndJsonDeserialize(IOEnv.VERIF_TRACE)
 FailSet(t) ==
-   (IF C05_OK(t.cfg, t.input, t.obs) THEN {} ELSE {"C05"}) \cup
-   (IF C03_OK(t.cfg, t.input, t.obs) THEN {} ELSE {"C03"}) \cup
+   (IF C20_OK(t.cfg, t.input, t.obs) THEN {} ELSE {"C20"}) \cup
    (IF C09_OK(t.cfg, t.input, t.obs) THEN {} ELSE {"C09"})
 Verdict(t) == [case |-> t.case, fails |-> FailSet(t), drift |-> ~Conforms(ModelOut(t.cfg, t.input), t.obs)]
 Init == l = 1
